@@ -69,10 +69,19 @@ func (s *swamp) PatchExpired(howMany int32, ops []msgpackpatch.Op, condition *ms
 
 	results := make([]PatchExpiredEntry, 0, len(selected))
 
+	// alive collects the selected treasures that still exist; only those go
+	// back into the expiration index below.
+	alive := make([]treasure.Treasure, 0, len(selected))
 	for _, treasureObj := range selected {
-		entry := s.applyPatchExpiredOne(treasureObj, ops, condition, meta)
-		results = append(results, entry)
+		entry, report, exists := s.applyPatchExpiredOne(treasureObj, ops, condition, meta, selectionPredicate)
+		if report {
+			results = append(results, entry)
+		}
+		if exists {
+			alive = append(alive, treasureObj)
+		}
 	}
+	selected = alive
 
 	// Re-insert all selected treasures into the expiration index.
 	// Idempotent: ReindexExpiration drops existing entries by key
@@ -99,6 +108,15 @@ func (s *swamp) PatchExpired(howMany int32, ops []msgpackpatch.Op, condition *ms
 		_ = s.expirationTimeBeaconDESC.SortByExpirationTimeDesc()
 	}
 
+	// A treasure removed (Delete / Shift*) after its patch but before the
+	// re-insertion above must not stay behind in the expiration index.
+	for _, t := range selected {
+		if s.beaconKey.Get(t.GetKey()) != t {
+			s.deleteTreasureIfBeaconInitialized(s.expirationTimeBeaconASC, t.GetKey())
+			s.deleteTreasureIfBeaconInitialized(s.expirationTimeBeaconDESC, t.GetKey())
+		}
+	}
+
 	return results, capReached, nil
 }
 
@@ -106,12 +124,29 @@ func (s *swamp) PatchExpired(howMany int32, ops []msgpackpatch.Op, condition *ms
 // guard and returns the outcome. It mirrors the per-key flow inside
 // PatchFields, minus the create-if-not-exist branch (PatchExpired only
 // touches existing treasures).
-func (s *swamp) applyPatchExpiredOne(treasureObj treasure.Treasure, ops []msgpackpatch.Op, condition *msgpackpatch.Condition, meta *PatchFieldsMeta) PatchExpiredEntry {
+//
+// Selection ran under the beacon mutex only, so the treasure is re-validated
+// here under its guard: a treasure that was removed in between is reported as
+// KEY_NOT_FOUND and never saved (Save would re-insert it as a new record); one
+// that is no longer expired or no longer satisfies selectionPredicate is left
+// untouched and unreported (report == false). exists tells the caller whether
+// the treasure still belongs into the expiration index.
+func (s *swamp) applyPatchExpiredOne(treasureObj treasure.Treasure, ops []msgpackpatch.Op, condition *msgpackpatch.Condition, meta *PatchFieldsMeta, selectionPredicate func(treasure.Treasure) bool) (entry PatchExpiredEntry, report bool, exists bool) {
 
 	guardID := treasureObj.StartTreasureGuard(true)
 	defer treasureObj.ReleaseTreasureGuard(guardID)
 
-	entry := PatchExpiredEntry{Key: treasureObj.GetKey()}
+	entry = PatchExpiredEntry{Key: treasureObj.GetKey()}
+
+	if s.beaconKey.Get(treasureObj.GetKey()) != treasureObj {
+		entry.Status = PatchStatusKeyNotFound
+		entry.ExpiredAt = expirationTimeAsTime(treasureObj.GetExpirationTime())
+		return entry, true, false
+	}
+	if exp := treasureObj.GetExpirationTime(); exp == 0 || exp >= time.Now().UTC().UnixNano() ||
+		(selectionPredicate != nil && !selectionPredicate(treasureObj)) {
+		return entry, false, true
+	}
 
 	switch treasureObj.GetContentType() {
 	case treasure.ContentTypeByteArray:
@@ -122,12 +157,12 @@ func (s *swamp) applyPatchExpiredOne(treasureObj treasure.Treasure, ops []msgpac
 		// final ExpiredAt is whatever the treasure currently holds.
 		entry.Status = PatchStatusKeyNotFound
 		entry.ExpiredAt = expirationTimeAsTime(treasureObj.GetExpirationTime())
-		return entry
+		return entry, true, true
 	default:
 		entry.Status = PatchStatusTypeMismatch
 		entry.Error = "treasure is not a ByteArray"
 		entry.ExpiredAt = expirationTimeAsTime(treasureObj.GetExpirationTime())
-		return entry
+		return entry, true, true
 	}
 
 	raw, err := treasureObj.GetContentByteArray()
@@ -135,13 +170,13 @@ func (s *swamp) applyPatchExpiredOne(treasureObj treasure.Treasure, ops []msgpac
 		entry.Status = PatchStatusInternalError
 		entry.Error = err.Error()
 		entry.ExpiredAt = expirationTimeAsTime(treasureObj.GetExpirationTime())
-		return entry
+		return entry, true, true
 	}
 	if len(raw) < 2 || raw[0] != patchMsgpackMagic0 || raw[1] != patchMsgpackMagic1 {
 		entry.Status = PatchStatusEncodingNotSupported
 		entry.Error = "treasure ByteArray is not msgpack-encoded (missing magic prefix)"
 		entry.ExpiredAt = expirationTimeAsTime(treasureObj.GetExpirationTime())
-		return entry
+		return entry, true, true
 	}
 	inputBody := raw[2:]
 
@@ -152,7 +187,7 @@ func (s *swamp) applyPatchExpiredOne(treasureObj treasure.Treasure, ops []msgpac
 		entry.Status = classifyPatchError(applyErr)
 		entry.Error = applyErr.Error()
 		entry.ExpiredAt = expirationTimeAsTime(treasureObj.GetExpirationTime())
-		return entry
+		return entry, true, true
 	}
 
 	// On meta-only patches the body is unchanged, but we still call
@@ -166,7 +201,7 @@ func (s *swamp) applyPatchExpiredOne(treasureObj treasure.Treasure, ops []msgpac
 	entry.Status = PatchStatusPatched
 	entry.NewMsgpack = out
 	entry.ExpiredAt = expirationTimeAsTime(treasureObj.GetExpirationTime())
-	return entry
+	return entry, true, true
 }
 
 // expirationTimeAsTime converts a UnixNano-style expiration time int64 to
